@@ -81,6 +81,12 @@ def fault_run(case, k, excname, clean, form=0):
     pt, val = best_of(sol)
     check_reported_best(pt, val, run.problem.log, run.problem, who=who)
     check_search_data(run, who=who)
+    told = [sv for e in run.rec.events if e[0] == "iter" for sv in e[3]]
+    if told != got:
+        fail(who + "the listener was told about %d trials, %d were completed (first difference at trial %d): the "
+             "failed point must not be reported as a trial" %
+             (len(told), len(got), next((i + 1 for i, (a, b) in enumerate(zip(told, got)) if a != b),
+                                        min(len(told), len(got)) + 1)))
     if "Exception was thrown" not in run.stdout():
         fail(who + "Solve printed no notice about the swallowed exception")
     res = run.results()
